@@ -359,14 +359,8 @@ theorem C17_acceptsGW_sound (b e : Bytes) (eo failed : Bool) (prods : List (List
   obtain ⟨s, hs, he⟩ := acceptsGW_sound _ prods failed sink h
   exact ⟨s, hs, by rw [he, C17_group_content]⟩
 
-/-- … and they reject nothing the writer can emit: for EVERY interleaving `s` of the producers' chunk sequences the
-writer's output is accepted — with the soundness theorems above the acceptors are exact, so a `reject` of the driver
-is a disagreement with every schedule, not an artefact of the search -/
-theorem C17_acceptsPW_complete (pre : Bytes) (prods : List (List Bytes)) (s : List Bytes) (h : Shuffle prods s) :
-    acceptsPW pre (chunkCount prods + 1) { prefix_ := pre } prods ((linesOf s.flatten).map (lineBlock pre)) = true := by
-  have := acceptsPW_complete pre prods s h (chunkCount prods + 1) { prefix_ := pre } (by rw [shuffle_chunkCount prods s h]; omega)
-  rwa [C17_prefixed] at this
-
+/-- … and the group acceptor rejects nothing the writer can emit: for EVERY interleaving `s` of the producers' chunk
+sequences the writer's output is accepted — with `C17_acceptsGW_sound` it is exact (for `acceptsPW` soundness only) -/
 theorem C17_acceptsGW_complete (b e : Bytes) (eo failed : Bool) (prods : List (List Bytes)) (s : List Bytes) (h : Shuffle prods s) :
     acceptsGW { begin_ := b, end_ := e, errorOnly := eo } prods failed
       (if (eo && !failed) || s.flatten = [] then [] else [b ++ s.flatten ++ e]) = true := by
